@@ -23,7 +23,8 @@ MANIFEST = {
             "exactly the property (value, position, error iff past the end).",
     "note": "Trusted: TLC, the instrumented ReadSeekSizer of the harness, the JSON trace encoding. Assumes readers "
             "obey io.Reader; ReadBytes(n>1024) is outside the domain (documented panic).",
-    "technique": "TLA+ model checking (TLC) of ByteView.tla + trace validation of recorded parser.Parser calls against PlainViewTrace.tla",
+    "technique": "TLA+ model checking (TLC) of ByteView.tla, Apalache inductive invariant ByteViewInd.tla for all buffer "
+                 "sizes, trace validation of recorded parser.Parser calls against PlainViewTrace.tla",
 }
 
 
@@ -79,7 +80,8 @@ def run(ctx):
         "underlying readers obey io.Reader (a (0, nil) result is followed by progress; every fifth random case uses a "
         "reader that returns (0, nil) on every second call); ReadBytes(n > 1024) panics by contract",
         "trace events carry returned data in full up to 48 bytes, else length, first/last 8 bytes and a checksum",
-        "exhaustive model uses B=4 and position-coded file contents; B=1024 is reached by scaled replay",
+        "exhaustive TLC model uses B=4 and explicit byte sequences; the cursor/window arithmetic is additionally proved "
+        "inductive for every B in 1..4096 with Apalache (ByteViewInd.tla); B=1024 of the real code is reached by scaled replay",
     ]
     # 1. the design: exhaustive model checking of the window cache
     res = ctx.tlc("ByteView", timeout=600, label="ByteView exhaustive B=4")
@@ -94,6 +96,22 @@ def run(ctx):
                         label="ByteView exhaustive B=%d" % b)
             if not r.ok:
                 raise vlib.Infra("ByteView.tla (B=%d) violates %s" % (b, r.violated))
+    # 1b. the unbounded part: cursor/window arithmetic for EVERY buffer size 1..4096 (1024 in the code), every
+    # file length and every history, as an inductive invariant discharged symbolically by Apalache
+    if not ctx.apalache("ByteViewInd", "Init", "IndInv", 0, cinit="ConstInit", label="ByteViewInd: Init => IndInv"):
+        raise vlib.Infra("ByteViewInd: Init does not establish IndInv (the spec is wrong)")
+    if not ctx.apalache("ByteViewInd", "IndInit", "IndInv", 1, cinit="ConstInit",
+                        label="ByteViewInd: IndInv /\\ Next => IndInv'"):
+        raise vlib.Infra("ByteViewInd: IndInv is not inductive (the spec is wrong)")
+    # non-vacuity: the same model without the compaction step 'from += pos' must fail
+    mut = open(os.path.join(vlib.SPEC_DIR, "ByteViewInd.tla")).read()
+    good = "/\\ from' = from + pos /\\ pos' = 0 /\\ used' = used - pos + l /\\ rpos' = rpos + l"
+    if good not in mut:
+        raise vlib.Infra("ByteViewInd.tla changed: the non-vacuity mutation no longer applies")
+    mut = mut.replace(good, good.replace("from' = from + pos", "from' = from")).replace("MODULE ByteViewInd", "MODULE ByteViewIndMut")
+    if ctx.apalache("ByteViewIndMut", "IndInit", "IndInv", 1, cinit="ConstInit", files={"ByteViewIndMut.tla": mut},
+                    label="ByteViewInd with the compaction step removed (must fail)"):
+        raise vlib.Infra("the mutated ByteViewInd model still satisfies IndInv: the inductive check is vacuous")
     ctx.cov["exhaustive"] = True
     ctx.cov["bounds"] = {"B": 4, "MaxFile": 10, "short_reads": "all", "history_length": "unbounded (finite state space under VIEW)"}
 
